@@ -988,6 +988,13 @@ impl<'a> G<'a> {
         if eventless {
             // guarded by the strictly decreasing budget so that eventless chains terminate
             t.cond = Some(Expr::Lt(Box::new(Expr::Int(0)), Box::new(Expr::Var("budget".into()))));
+            // some eventless transitions have a second condition of their own: those of a descendant may be
+            // disabled while the one of an ancestor is enabled
+            let own: Vec<String> = self.vars.iter().filter(|v| *v != "budget").cloned().collect();
+            if !own.is_empty() && self.rng.chance(1, 3) {
+                let extra = Expr::Lt(Box::new(Expr::Var(self.rng.pick(&own).clone())), Box::new(Expr::Int(self.rng.below(3) as i64)));
+                t.cond = Some(Expr::And(Box::new(t.cond.take().unwrap()), Box::new(extra)));
+            }
             t.content.push(Exec::Assign { loc: "budget".into(), expr: Expr::Sub(Box::new(Expr::Var("budget".into())), Box::new(Expr::Int(1))) });
             self.budget_var += 1;
         } else {
